@@ -31,6 +31,7 @@ PUSHES = {
 }
 EXPECT_MSG = {'4t1': 't1', '4{"j":2}': {'j': 2}, 'bAAEC': b'\x00\x01\x02', '4solo': 'solo', '4after-ping': 'after-ping'}
 SENDS = ['s-text', b'\xfe\xff', {'k': [1, 'v']}, 's-last']
+HANDLER_SENDS = ['hc-1', b'\x01hc', {'hc': 3}]
 IV, TO = 1.0, 1.0
 
 
@@ -39,6 +40,9 @@ class Conduct(core.Scenario):
         p = self.params
         self.impl = p['impl']
         w = self.world = cworld.make_client_world(self.impl)
+        if p.get('connect_sends'):
+            # the application sends from inside its connect handler
+            w.effects['connect'] = lambda arg: [('send', x) for x in HANDLER_SENDS[:p['connect_sends']]]
         self.mode = p['mode']            # polling / websocket / upgrade_ok / upgrade_wrong / upgrade_silent / upgrade_refused
         self.horizon = 9.0 if self.mode != 'upgrade_silent' else 16.0
         self.silent_from = None
@@ -196,7 +200,8 @@ class Conduct(core.Scenario):
             self.flag('messages_to_handler_wrong', 'handlers never ran for %r' % (pool,), trigger=trig)
         # ---- application sends: once, in order, right encoding on the transport in use
         sent = [(ch, d, k) for ch, t, d, k in out if t == 4]
-        want = SENDS[:p['nsend']]
+        hk = p.get('connect_sends', 0)
+        want = HANDLER_SENDS[:hk] + SENDS[:p['nsend']]
 
         def norm(x):
             return bytes(x) if isinstance(x, (bytes, bytearray)) else x
@@ -218,7 +223,10 @@ class Conduct(core.Scenario):
             # order is owed between sends where the earlier call had returned before the later one was issued
             for i in range(len(want)):
                 for j in range(i + 1, len(want)):
-                    ci, cj = self.send_calls.get(i), self.send_calls.get(j)
+                    ci, cj = self.send_calls.get(i - hk), self.send_calls.get(j - hk)
+                    if j < hk and pos[i] > pos[j]:
+                        self.flag('sends_wrong', 'server received %r: the sends made one after the other inside the connect handler '
+                                  'arrived out of order' % (sent,), trigger=trig)
                     if ci and cj and ci[1].done and ci[1].step_done is not None and ci[1].step_done <= cj[0] and pos[i] > pos[j]:
                         self.flag('sends_wrong', 'server received %r: send #%d overtook send #%d although #%d had returned first'
                                   % (sent, j, i, i), trigger=trig)
@@ -442,6 +450,10 @@ def param_list(ctx):
             for sq in ([], ['msg']):
                 ps.append({'impl': impl, 'mode': mode, 'pushes': sq, 'nsend': 1, 'piggy': ['4welcome', '2hs']})
                 ps.append({'impl': impl, 'mode': mode, 'pushes': sq, 'nsend': 0, 'piggy': ['4w1', '4w2']})
+        # the application sends from inside its connect handler (before connect() has returned)
+        for mode in ('polling', 'websocket', 'upgrade_ok', 'upgrade_wrong'):
+            for hk in (1, 3):
+                ps.append({'impl': impl, 'mode': mode, 'pushes': [], 'nsend': 1, 'connect_sends': hk})
         # writes that block inside the socket (the server is not reading) while frames keep arriving
         for mode in ('websocket', 'upgrade_ok'):
             for sq in (['msg'], ['ping'], ['pingx', 'msg'], ['burst']):
@@ -508,7 +520,7 @@ def run(ctx):
         'evaluations': st.executions + nurl, 'distinct_nontrivial': len(st.outcomes) + nurl,
         'rule': 'server push sequences over %r (length <= %d) x application sends (text, bytes, JSON; 0..4) x mode {polling, websocket, '
                 'upgrade with probe answered correctly / wrongly / not at all / socket refused} x {Client, AsyncClient}; pushes and sends '
-                'are parallel scripts: all interleavings and <= %d deviation(s); every execution ends in server silence; WebSocket scenarios in which the server stops reading, so that a send of the client blocks inside the socket while frames keep arriving, and later resumes; write-fault scenarios (sends piled up behind a blocked write go out as one batch and the k-th write of that flush fails once: the wire must be a prefix of what was sent). Plus the '
+                'are parallel scripts: all interleavings and <= %d deviation(s); every execution ends in server silence; sends issued from inside the connect handler; WebSocket scenarios in which the server stops reading, so that a send of the client blocks inside the socket while frames keep arriving, and later resumes; write-fault scenarios (sends piled up behind a blocked write go out as one batch and the k-th write of that flush fails once: the wire must be a prefix of what was sent). Plus the '
                 'product of 4 schemes x 3 hosts x 3 paths x 3 queries x 3 endpoint settings x 2 transports (%d URLs per client).'
                 % (list(PUSHES), 2 if ctx.quick else 3, bound, len(cases)),
         'exhaustive': True, 'bound_completed': bound, 'caps_hit': st.caps, 'scenarios': len(params),
